@@ -212,6 +212,12 @@ def ops_for(x, level="full"):
     add(Op("x/2", lambda x: x / 2, tags=("arith",)))
     add(Op("-x", lambda x: -x, tags=("arith",)))
     add(Op("x+x.copy()*3", lambda x: x + x.copy() * 3, tags=("arith",)))
+    # augmented assignment as operations with an in-place form: x += w must leave in x what x + w returns (w: an independent
+    # array of the same structure, value 3x, stored without pending signs so that the two operands differ in sign bookkeeping)
+    add(Op("x+=3x", lambda x: x + _partner3(x), inplace=lambda y: y.__iadd__(_partner3(y)), tags=("arith",)))
+    add(Op("x-=3x", lambda x: x - _partner3(x), inplace=lambda y: y.__isub__(_partner3(y)), tags=("arith",)))
+    add(Op("x*=2", lambda x: x * 2, inplace=lambda y: y.__imul__(2), tags=("arith",)))
+    add(Op("x/=2", lambda x: x / 2, inplace=lambda y: y.__itruediv__(2), tags=("arith",)))
     add(Op("iadd", lambda x: x.copy().__iadd__(x), tags=("arith",)))
     add(Op("imul2", lambda x: x.copy().__imul__(2), tags=("arith",)))
     if x.blocks:
@@ -309,6 +315,10 @@ def _herm(x):
         if s[0] == s[1]:
             new[s] = b + b.conj().T
     return h.copy_with(blocks=new)
+
+
+def _partner3(x):
+    return (x.phase_sync() if x.fermionic else x.copy()) * 3
 
 
 def _dominant(x, general=False):
